@@ -120,3 +120,57 @@ NOT_APPLICABLE = [
     {"property_id": p, "reason": "check not built yet in this round (planned, see DESIGN.md §5); not claimed"}
     for p in _ALL if p not in PROPS
 ]
+
+# ------------------------------------------------------------------ mapper search (C01 C02 C09 C10 C11a): shared engine "MAPPER"
+MAPPER_CONFIGS = [
+    # (config, quick bounds, thorough bounds)
+    ("offset:0x0:asc:A",            "2,2;3,1;4,0", "3,3;4,1;5,0"),
+    ("offset:0x40000000:aligned:A", "2,2;3,1;4,0", "3,2;4,1;5,0"),
+    ("offset:0x3fffc000:asc:A",     "2,2;3,1;4,0", "3,2;4,1;5,0"),
+    ("offset:0x3fc0000000:lifo:A",  "2,2;3,1;4,0", "3,2;4,1;5,0"),
+    ("offset:0x0:lifo:B",           "2,2;3,1",     "3,2;4,1"),
+    ("mapped:0x0:asc:A",            "2,2;3,1;4,0", "3,3;4,1;5,0"),
+    ("mapped:0x3fffd000:lifo:A",    "2,2;3,1;4,0", "3,2;4,1;5,0"),
+    ("mapped:0x40000000:aligned:B", "2,2;3,1",     "3,2;4,1"),
+    ("rec1:0x0:asc:A",              "2,2;3,1;4,0", "3,3;4,1"),
+    ("rec126:0x3fffc000:asc:A",     "2,2;3,1",     "3,2;4,1"),
+    ("rec126:0x3fffd000:lifo:A",    "2,2;3,1",     "3,2;4,1"),
+    ("rec248:0x40000000:aligned:A", "2,2;3,1;4,0", "3,2;4,1"),
+    ("rec200:0x0:lifo:B",           "2,2;3,0",     "3,1;4,0"),
+    ("rec2:0x40000000:asc:B",       "2,2;3,0",     "3,1;4,0"),
+    ("offset:0x40000000:asc:B",     "2,2;3,0",     "3,2;4,0"),
+    ("mapped:0x0:lifo:A",           "2,2;3,1;4,0", "3,2;4,1;5,0"),
+]
+
+def mapper_units(tier):
+    us = []
+    for cfg, q, t in MAPPER_CONFIGS:
+        us.append(dict(sub="MAPPER", profile="chk", args=[cfg, q if tier == "quick" else t, "1500000" if tier == "quick" else "12000000"]))
+    return us
+
+_MAPPER_RULE = ("explicit-state breadth-first search over call histories on the real mappers (OffsetPageTable with several physical offsets, "
+                "MappedPageTable with a permuted frame mapping, RecursivePageTable through a demand-mapped recursive window for R in {1,2,126,200,248}) "
+                "over simulated physical memory: state = concrete content of all page-table frames + allocator pool (+ deviations used); ~250 actions "
+                "per state (map_to_with_table_flags/map_to/identity_map x 3 sizes x frames x leaf flags x parent flags x 5 allocator failure schedules, unmap, "
+                "update_flags, set_flags_p4/p3/p2_entry, clean_up, clean_up_addr_range x 12 ranges); bounds are unions of (depth, deviation) pairs, a deviation "
+                "being one non-default argument; 16 configurations (implementation x physical base x allocator policy x page alphabet A nesting / B edges). "
+                "After every transition: outcome class vs the abstract model R1 (Appendix A of DESIGN.md), full hardware-style traversal R2 of raw memory == R1, "
+                "parent-entry flags, allocation/deallocation logs, access monitor; in every new state: translate/translate_addr/translate_page on the probe addresses == R1 == single-address hardware walk.")
+
+def _mapper_prop(extra_rule, assumptions):
+    return dict(profiles=["chk"], level="model_checking", units=mapper_units, engine="vh MAPPER",
+                rule=_MAPPER_RULE + " " + extra_rule, assumptions=assumptions, timeout={"quick": 300, "thorough": 3000},
+                technique="explicit-state model checking (BFS with state hashing, deviation-bounded) of the real mapper code against a reference model")
+
+PROPS["C01"] = _mapper_prop("This property: translation agreement (R1 = R2 = implementation), unmap returns the mapped frame, parent flags on the walk.",
+    ["leaf flags compared on bits 0-11 and 52-63", "W/U bits ignored by the recursive window (ring 0, CR0.WP=0)", "visited set keyed by 128-bit state hash"])
+PROPS["C02"] = _mapper_prop("This property: exact outcome classes incl. every allocator failure schedule (fault enumeration), no mapping change on Err, identical across implementations (same R1 verdict).",
+    ["where the documentation is silent (slot holds a table for a huge-page call) any Err is accepted but never Ok", "payload of PageAlreadyMapped unconstrained"])
+PROPS["C09"] = _mapper_prop("This property: PROT_NONE access monitor on every non-table frame (stray reads/writes), garbage-prefilled recycled frames make missing zeroing visible, allocation request counts per call, only clean-up releases.",
+    ["frame-granular monitor inside the simulated window plus process-level faults outside it"])
+PROPS["C10"] = _mapper_prop("This property: every state x clean_up / 12 ranges: each released frame checked at the moment of the callback (empty, unlinked, a level 1-3 table overlapping the range, once), no empty table left wholly inside the range, translations and other tables unchanged, second identical clean-up releases nothing.",
+    ["partially overlapping empty tables may or may not be released (statement leaves it open)"])
+PROPS["C11"] = _mapper_prop("This property (part a): every Ok of a leaf-changing call carries MapperFlush::page() == argument page, parent-entry setters return MapperFlushAll; parts b-d (flush instructions) run on the trap-and-emulate CPU.",
+    [])
+ENGINES[0]["serves_properties"] = sorted(PROPS.keys())
+NOT_APPLICABLE[:] = [{"property_id": p, "reason": "check not built yet in this round (planned, see DESIGN.md §5); not claimed"} for p in _ALL if p not in PROPS]
